@@ -35,7 +35,11 @@ RULE = (
     "(two cameras), labels car/bicycle/pedestrian/motorbike/truck/bus/unknown + FP-labelled ground truth, clusters of "
     "estimates around one ground truth, exact duplicates and symmetric offsets (exact score ties), 3 label policies, "
     "4 matching modes (2-D: center distance, IoU2D), thresholds none / per-label list (incl. out-of-range and short "
-    "lists), detection vs FP validation, a slice through PerceptionEvaluationManager.add_frame_result; a case is "
+    "lists), detection vs FP validation, a slice through PerceptionEvaluationManager.add_frame_result; in 35 % of the "
+    "cases numeric type variants: the same radii / positions / sizes / velocities / confidences / ROI pixels / time "
+    "stamps / point counts / ego pose / manager configuration numbers handed to the real code as int, np.float64, "
+    "np.float32 (only values exact in single precision), np.int64, np.int32, in tuples, lists or ndarrays, a uniform "
+    "radius as a scalar or one-element list in the manager configuration (model request and oracle unchanged); a case is "
     "non-trivial when both lists are non-empty (the two early returns are counted separately); distinct = distinct case JSON"
 )
 TRUSTED = [
@@ -50,6 +54,10 @@ ASSUMPTIONS = [
     "estimates and ground truths are of the same Python type (the isinstance assertion is not exercised)",
     "labels are AutowareLabel members; 3-D frames are base_link/map with a base_link->map transform supplied",
     "the oracle's independent IoU / plane-distance recomputation uses floats: a pair closer than 1e-7 to its threshold is not judged",
+    "numeric type variants keep the mathematical value (bool is not a numeric type; np.float32 only for values exact in single "
+    "precision); with float32-held geometry or radii a pair closer than 1e-4 (relative) to its threshold is not judged, and a case "
+    "with a float32 radius and a score within 1e-6 (relative) of it is skipped; ndarray-held positions only in the direct call "
+    "(DynamicObject.__eq__, used by later stages of the manager, is defined for tuple positions)",
 ]
 EXHAUSTIVE = False
 
@@ -107,6 +115,160 @@ def _m():
     return _MOD
 
 
+# ----------------------------------------------------------------------------- numeric type variants
+#
+# The library's API takes numbers (radii, thresholds, positions, sizes, confidences, ROI pixels, time stamps, point
+# counts).  The case JSON always holds the canonical value (a Python float, or int for pixels/counts); the optional
+# field case["num"] names, per numeric parameter, the numeric TYPE in which the SAME mathematical value is handed to
+# the real code.  The model request and the oracle work on the canonical values only, so they do not change.
+# bool is not a numeric type here.  A tag is only used for a value that it represents exactly.
+
+FLOAT_TAGS = ["float", "int", "np.float64", "np.float32", "np.int64", "np.int32"]
+INT_TAGS = ["int", "np.int64", "np.int32"]
+ARRAY_TAGS = ["np.float64", "np.float32", "np.int64", "np.int32"]
+
+
+def num_ok(v, tag: str) -> bool:
+    """can the value be given in this numeric type without changing it?"""
+    if isinstance(v, bool) or not isinstance(v, (int, float)) or v != v or v in (math.inf, -math.inf):
+        return False
+    if tag == "float":
+        return float(v) == v
+    if tag == "np.float64":
+        return float(v) == v
+    if tag in ("int", "np.int64"):
+        return float(v).is_integer() and abs(v) < 2 ** 53
+    if tag == "np.int32":
+        return float(v).is_integer() and abs(v) < 2 ** 31
+    if tag == "np.float32":
+        import numpy as np
+
+        with np.errstate(all="ignore"):
+            return bool(np.isfinite(np.float32(v))) and Fraction(float(np.float32(v))) == Fraction(v)
+    return False
+
+
+def num_cast(v, tag: Optional[str]):
+    """the value in the numeric type named by the tag (the canonical value itself when there is no tag or it does not fit)"""
+    if tag is None or not num_ok(v, tag):
+        return v
+    if tag == "float":
+        return float(v)
+    if tag == "int":
+        return int(v)
+    import numpy as np
+
+    t = {"np.float64": np.float64, "np.float32": np.float32, "np.int64": np.int64, "np.int32": np.int32}[tag]
+    return t(int(v)) if tag in ("np.int64", "np.int32") else t(v)
+
+
+def num_pick(rng, v, tags=FLOAT_TAGS) -> str:
+    """a type tag for the value, drawn from the types that represent it exactly"""
+    ok = [t for t in tags if num_ok(v, t)]
+    return rng.choice(ok) if ok else tags[0]
+
+
+def vec_pick(rng, vals, tags=FLOAT_TAGS, containers=("tuple", "tuple", "list", "array")) -> dict:
+    """a container + element types for a vector of numbers: tuple/list of (independently typed) scalars, or an ndarray"""
+    c = rng.choice(list(containers))
+    if c == "array":
+        ok = [t for t in ARRAY_TAGS if t in tags and all(num_ok(v, t) for v in vals)]
+        if ok:
+            return {"c": "array", "t": rng.choice(ok)}
+        c = "tuple"
+    if rng.random() < 0.5:  # one type for all elements
+        ok = [t for t in tags if all(num_ok(v, t) for v in vals)]
+        t = rng.choice(ok) if ok else tags[0]
+        return {"c": c, "t": [t] * len(vals)}
+    return {"c": c, "t": [num_pick(rng, v, tags) for v in vals]}
+
+
+def vec_cast(vals, spec: Optional[dict], default=tuple):
+    if not spec:
+        return default(vals)
+    if spec["c"] == "array":
+        import numpy as np
+
+        if all(num_ok(v, spec["t"]) for v in vals):
+            return np.array([num_cast(v, spec["t"]) for v in vals], dtype=getattr(np, spec["t"][3:]))
+        return default(vals)
+    typed = [num_cast(v, t) for v, t in zip(vals, list(spec["t"]) + [None] * len(vals))]
+    return list(typed) if spec["c"] == "list" else tuple(typed)
+
+
+def _num(case: dict) -> dict:
+    return case.get("num") or {}
+
+
+def typed_radii(case: dict):
+    """the radius list as it is handed to the real code"""
+    if case["radii"] is None:
+        return None
+    tags = _num(case).get("radii")
+    if not tags:
+        return case["radii"]
+    return [num_cast(r, t) for r, t in zip(case["radii"], list(tags) + [None] * len(case["radii"]))]
+
+
+def uses_low_precision(case: dict) -> bool:
+    """some geometry is held in float32: the library may then compute in that precision"""
+    nv = _num(case)
+    for which in ("ests", "gts"):
+        for t in nv.get(which) or []:
+            for key in ("pos", "size"):
+                sp = (t or {}).get(key)
+                if sp and any(x == "np.float32" for x in ([sp["t"]] if isinstance(sp["t"], str) else sp["t"])):
+                    return True
+    sp = nv.get("ego")
+    return bool(sp and any(x == "np.float32" for x in ([sp["t"]] if isinstance(sp["t"], str) else sp["t"])))
+
+
+def gen_num(rng, case: dict, p: float = 0.6) -> dict:
+    """numeric type variants for the numeric parameters of a case; every parameter is varied with probability p"""
+    nv: Dict[str, Any] = {}
+    if case["radii"] is not None:
+        r = rng.random()
+        if r < 0.5:  # the whole list in one type (a list read from YAML as ints, a numpy row converted with list())
+            ok = [t for t in FLOAT_TAGS if all(num_ok(v, t) for v in case["radii"])]
+            nv["radii"] = [rng.choice(ok)] * len(case["radii"])
+        else:
+            nv["radii"] = [num_pick(rng, v) if rng.random() < 0.8 else "float" for v in case["radii"]]
+        if case["kind"] == "manager" and case["targets"] and len(case["radii"]) == len(case["targets"]) and len(set(case["radii"])) == 1:
+            nv["radii_form"] = rng.choice(["list", "scalar", "single"])
+            if nv["radii_form"] != "list":
+                nv["radii"] = [nv["radii"][0]] * len(case["radii"])
+    # ndarray-held positions only for the direct call: DynamicObject.__eq__ (used by the manager's later stages, not by
+    # the matcher) is defined for the documented tuple positions only
+    cont = ("tuple", "tuple", "list") if case["kind"] == "manager" else ("tuple", "tuple", "list", "array")
+    for which in ("ests", "gts"):
+        specs = []
+        for o in case[which]:
+            t: Dict[str, Any] = {}
+            if case["dim"] == "3d":
+                if rng.random() < p:
+                    t["pos"] = vec_pick(rng, o["pos"], containers=cont)
+                if rng.random() < p:
+                    t["size"] = vec_pick(rng, o["size"], containers=cont)
+                if rng.random() < p / 2:
+                    t["vel"] = vec_pick(rng, [0.0, 0.0, 0.0], containers=cont)
+                if rng.random() < p / 2:
+                    t["pcn"] = rng.choice(INT_TAGS)
+            else:
+                if rng.random() < p:
+                    t["roi"] = vec_pick(rng, o["roi"], INT_TAGS, ("tuple", "tuple", "list"))
+            if "conf" in o and rng.random() < p:
+                t["conf"] = num_pick(rng, o["conf"])
+            if rng.random() < p / 2:
+                t["t"] = rng.choice(INT_TAGS)
+            specs.append(t)
+        nv[which] = specs
+    if case["dim"] == "3d" and rng.random() < p:
+        nv["ego"] = vec_pick(rng, [case["ego"][0], case["ego"][1], 0.0], containers=cont)
+    if case["kind"] == "manager" and rng.random() < p:
+        nv["cfg"] = rng.choice(["int", "int", "np.float64", "np.float32", "np.int64"])
+    return nv
+
+
 # ----------------------------------------------------------------------------- building real objects
 
 def _label(name: str):
@@ -118,21 +280,26 @@ def _label(name: str):
 def build_objects(case: dict, which: str) -> list:
     M = _m()
     out = []
+    specs = _num(case).get(which) or []
     for k, o in enumerate(case[which]):
         uuid = f"{which[0]}{k}"
+        t = (specs[k] if k < len(specs) else None) or {}
+        conf = num_cast(o.get("conf", 0.9), t.get("conf"))
+        stamp = num_cast(100, t.get("t"))
         if case["dim"] == "3d":
             q = M["Quaternion"](axis=[0, 0, 1], angle=o["yaw"])
             out.append(
                 M["DynamicObject"](
-                    100, M["FrameID"](o["frame"]), tuple(o["pos"]), q,
-                    M["Shape"](M["ShapeType"].BOUNDING_BOX, tuple(o["size"])), (0.0, 0.0, 0.0),
-                    o.get("conf", 0.9), _label(o["label"]), pointcloud_num=10, uuid=uuid,
+                    stamp, M["FrameID"](o["frame"]), vec_cast(o["pos"], t.get("pos")), q,
+                    M["Shape"](M["ShapeType"].BOUNDING_BOX, vec_cast(o["size"], t.get("size"))),
+                    vec_cast([0.0, 0.0, 0.0], t.get("vel")),
+                    conf, _label(o["label"]), pointcloud_num=num_cast(10, t.get("pcn")), uuid=uuid,
                 )
             )
         else:
             out.append(
-                M["DynamicObject2D"](100, M["FrameID"](o["frame"]), o.get("conf", 0.9), _label(o["label"]),
-                                     roi=tuple(o["roi"]), uuid=uuid)
+                M["DynamicObject2D"](stamp, M["FrameID"](o["frame"]), conf, _label(o["label"]),
+                                     roi=vec_cast(o["roi"], t.get("roi")), uuid=uuid)
             )
     return out
 
@@ -142,7 +309,8 @@ def build_matrices(case: dict):
     if case["dim"] != "3d":
         return None
     x, y, yaw = case["ego"]
-    return [M["HomogeneousMatrix"]((x, y, 0.0), M["Quaternion"](axis=[0, 0, 1], angle=yaw), M["FrameID"].BASE_LINK, M["FrameID"].MAP)]
+    return [M["HomogeneousMatrix"](vec_cast([x, y, 0.0], _num(case).get("ego")), M["Quaternion"](axis=[0, 0, 1], angle=yaw),
+                                   M["FrameID"].BASE_LINK, M["FrameID"].MAP)]
 
 
 def build_transforms(case: dict):
@@ -181,7 +349,10 @@ def _manager(case: dict):
     import json
     import tempfile
 
-    key = json.dumps([case["dim"], case["task_fp"], case["targets"], case["radii"], case["policy"], case.get("mframe", "base_link")])
+    nv = _num(case)
+    ctag = nv.get("cfg")
+    key = json.dumps([case["dim"], case["task_fp"], case["targets"], case["radii"], case["policy"], case.get("mframe", "base_link"),
+                      nv.get("radii"), nv.get("radii_form"), ctag])
     if key in _MANAGERS:
         m = _MANAGERS[key]
         m.frame_results.clear()
@@ -194,11 +365,11 @@ def _manager(case: dict):
         d = {
             "evaluation_task": "fp_validation" if case["task_fp"] else "detection",
             "target_labels": list(case["targets"]),
-            "max_x_position": 1000.0, "max_y_position": 1000.0, "min_point_numbers": [0] * n,
+            "max_x_position": num_cast(1000.0, ctag), "max_y_position": num_cast(1000.0, ctag), "min_point_numbers": [0] * n,
             "label_prefix": "autoware", "merge_similar_labels": False,
             "matching_label_policy": case["policy"],
-            "center_distance_thresholds": [[1.0] * n], "plane_distance_thresholds": [2.0],
-            "iou_2d_thresholds": [0.5], "iou_3d_thresholds": [0.5],
+            "center_distance_thresholds": [[num_cast(1.0, ctag)] * n], "plane_distance_thresholds": [num_cast(2.0, ctag)],
+            "iou_2d_thresholds": [num_cast(0.5, ctag)], "iou_3d_thresholds": [num_cast(0.5, ctag)],
         }
         frame = case.get("mframe", "base_link")
     else:
@@ -207,11 +378,15 @@ def _manager(case: dict):
             "target_labels": list(case["targets"]),
             "label_prefix": "autoware", "merge_similar_labels": False,
             "matching_label_policy": case["policy"],
-            "center_distance_thresholds": [[100.0] * n], "iou_2d_thresholds": [0.5],
+            "center_distance_thresholds": [[num_cast(100.0, ctag)] * n], "iou_2d_thresholds": [num_cast(0.5, ctag)],
         }
         frame = ["cam_front", "cam_back"]
     if case["radii"] is not None:
-        d["max_matchable_radii"] = list(case["radii"])
+        tr = list(typed_radii(case))
+        form = nv.get("radii_form", "list")
+        uniform = len(tr) == n and len(set(case["radii"])) == 1
+        # a scalar / one-element list is expanded by the library to one radius per target label
+        d["max_matchable_radii"] = tr[0] if form == "scalar" and uniform else [tr[0]] if form == "single" and uniform else tr
     cfg = PerceptionEvaluationConfig(
         dataset_paths=[str(core.REPO / "perception_eval" / "test" / "sample_data")], frame_id=frame,
         result_root_directory=tempfile.mkdtemp(prefix="peval_c01_"), evaluation_config_dict=d,
@@ -236,6 +411,7 @@ def _table_facts(case: dict, ests: list, gts: list, transforms) -> Tuple[list, l
     _, cls = M["METHOD"][case["mode"]]
     policy = M["MatchingLabelPolicy"](case["policy"])
     targets = _targets(case)
+    radii = typed_radii(case)
     vals, facts = [], []
     for e in ests:
         rv, rf = [], []
@@ -249,7 +425,7 @@ def _table_facts(case: dict, ests: list, gts: list, transforms) -> Tuple[list, l
             v = method.value
             rv.append(core.q(float(v)))
             try:
-                thr = M["get_label_threshold"](g.semantic_label, targets, case["radii"])
+                thr = M["get_label_threshold"](g.semantic_label, targets, radii)
                 within = None if thr is None else bool(method.is_better_than(thr))
             except Exception as ex:  # IndexError (short list) / AssertionError (IoU threshold outside [0,1])
                 within = "err:" + type(ex).__name__
@@ -279,12 +455,14 @@ def run_impl(case: dict) -> dict:
             cfg = m.evaluator_config
             tl = list(case["targets"])
             n = len(tl)
+            ctag = _num(case).get("cfg")
             if case["dim"] == "3d":
-                crit = CriticalObjectFilterConfig(cfg, tl, max_x_position_list=[1000.0] * n, max_y_position_list=[1000.0] * n)
-                pf = PerceptionPassFailConfig(cfg, tl, matching_threshold_list=[2.0] * n)
+                crit = CriticalObjectFilterConfig(cfg, tl, max_x_position_list=[num_cast(1000.0, ctag)] * n,
+                                                  max_y_position_list=[num_cast(1000.0, ctag)] * n)
+                pf = PerceptionPassFailConfig(cfg, tl, matching_threshold_list=[num_cast(2.0, ctag)] * n)
             else:
                 crit = CriticalObjectFilterConfig(cfg, tl)
-                pf = PerceptionPassFailConfig(cfg, tl, matching_threshold_list=[0.5] * n)
+                pf = PerceptionPassFailConfig(cfg, tl, matching_threshold_list=[num_cast(0.5, ctag)] * n)
             frame = M["FrameGroundTruth"](100, "0", gts, transforms=build_matrices(case))
             # what the manager hands to the matcher: its own filter on both lists
             in_e = M["objects_filter"].filter_objects(objects=list(ests), is_gt=False, transforms=frame.transforms, **m.filtering_params)
@@ -297,7 +475,7 @@ def run_impl(case: dict) -> dict:
             res = M["get_object_results"](
                 evaluation_task=_task(case), estimated_objects=ests, ground_truth_objects=gts,
                 target_labels=_targets(case), matching_label_policy=M["MatchingLabelPolicy"](case["policy"]),
-                matching_mode=_mode, matchable_thresholds=case["radii"], transforms=transforms,
+                matching_mode=_mode, matchable_thresholds=typed_radii(case), transforms=transforms,
             )
         rl = []
         for r in res:
@@ -341,6 +519,23 @@ def model_requests(case: dict, out: dict) -> list:
     }]
 
 
+def _near_low_precision_threshold(case: dict, out: dict) -> bool:
+    """a radius handed over as float32 and a score within float32 resolution of it (not equal): numpy's promotion rules
+    decide in which precision the comparison is done, so the decision is not judged"""
+    tags = _num(case).get("radii") or []
+    if "np.float32" not in tags or case["radii"] is None:
+        return False
+    for r, t in zip(case["radii"], tags):
+        if t != "np.float32":
+            continue
+        for row in out.get("vals") or []:
+            for v in row:
+                d = abs(float(Fraction(v)) - r)
+                if 0 < d <= 1e-6 * max(1.0, abs(r)):
+                    return True
+    return False
+
+
 def _to_ids(out: dict, results: list) -> list:
     """model results are positions in the matcher's input lists; map back to the case's object ids"""
     return [[out["in_e"][i], None if j is None else out["in_g"][j]] for i, j in results]
@@ -352,6 +547,8 @@ def compare(case: dict, out: dict, resps: list) -> Optional[str]:
         if out.get("err") == r.get("err"):
             return None
         return f"impl {out.get('err') or out.get('results')} != model {r.get('err') or r.get('results')}"
+    if _near_low_precision_threshold(case, out):
+        return "skip"
     mres = _to_ids(out, r["results"])
     if mres != out["results"]:
         return f"result lists differ: impl {out['results']} model {mres}"
@@ -456,6 +653,9 @@ def independent_score(case: dict, e: dict, g: dict):
 def radius_verdict(case: dict, e: dict, g: dict, thr: float) -> Optional[bool]:
     """is the pair strictly better than the threshold? None = too close to call / ambiguous"""
     kind, v = independent_score(case, e, g)
+    margin = 1e-7
+    if uses_low_precision(case) or "np.float32" in (_num(case).get("radii") or []):
+        margin = 1e-4 * max(1.0, abs(thr))  # float32 geometry: the library may compute the score in single precision
     if kind == "ambiguous":
         return None
     maximize = case["mode"] in ("iou2d", "iou3d")
@@ -468,7 +668,7 @@ def radius_verdict(case: dict, e: dict, g: dict, thr: float) -> Optional[bool]:
         if v != t and abs(v - t) < Fraction(1, 10 ** 12):
             return None
         return v > t if maximize else v < t
-    if abs(v - float(t)) < 1e-7:
+    if abs(v - float(t)) < margin:
         return None
     return v > float(t) if maximize else v < float(t)
 
@@ -585,12 +785,39 @@ def scene_stats(case: dict, out: dict) -> dict:
     return st
 
 
+def num_branches(case: dict) -> List[str]:
+    """which numeric parameters are handed over in which numeric types"""
+    nv = _num(case)
+    if not nv:
+        return ["num:canonical"]
+    b = set()
+    for t in nv.get("radii") or []:
+        b.add("num:radius:" + t)
+    if nv.get("radii_form"):
+        b.add("num:radii-form:" + nv["radii_form"])
+    for which in ("ests", "gts"):
+        for spec in nv.get(which) or []:
+            for key, sp in (spec or {}).items():
+                if isinstance(sp, dict):
+                    b.add(f"num:{key}:{sp['c']}")
+                    for t in ([sp["t"]] if isinstance(sp["t"], str) else sp["t"]):
+                        b.add(f"num:{key}:{t}")
+                else:
+                    b.add(f"num:{key}:{sp}")
+    if nv.get("ego"):
+        b.add("num:ego:" + nv["ego"]["c"])
+    if nv.get("cfg"):
+        b.add("num:cfg:" + nv["cfg"])
+    return sorted(b) or ["num:canonical"]
+
+
 def branches(case: dict, out: dict) -> List[str]:
     b = [f"dim:{case['dim']}", f"mode:{case['dim']}:{case['mode']}", f"policy:{case['policy']}",
          f"task:{'fp_validation' if case['task_fp'] else 'detection'}", f"kind:{case['kind']}",
          f"nE:{_bucket(len(case['ests']))}", f"nG:{_bucket(len(case['gts']))}",
          "thresholds:" + ("none" if case["radii"] is None else "per-label"),
          "targets:" + ("none" if case["targets"] is None else "list")]
+    b += num_branches(case)
     nE, nG = len(out.get("in_e", [])), len(out.get("in_g", []))
     if "err" in out:
         b.append("err:" + out["err"])
@@ -727,7 +954,10 @@ def _gen_radii(rng, mode: str, dim: str, n: int, special: float):
     return radii
 
 
-def gen_case(rng, size_max: int, contested: float = 0.5, manager: float = 0.1) -> dict:
+NUM_FRACTION = 0.35  # share of the generated cases whose numeric parameters are handed over in other numeric types
+
+
+def gen_case(rng, size_max: int, contested: float = 0.5, manager: float = 0.1, numeric: float = NUM_FRACTION) -> dict:
     dim = "3d" if rng.random() < 0.7 else "2d"
     kind = "manager" if rng.random() < manager else "direct"
     mode = "center" if kind == "manager" else rng.choice(MODES3D if dim == "3d" else MODES2D)
@@ -757,6 +987,10 @@ def gen_case(rng, size_max: int, contested: float = 0.5, manager: float = 0.1) -
         case["ego"] = [core.dyadic(rng, -8, 8, 2), core.dyadic(rng, -8, 8, 2), rng.choice([0.0, 0.5, -1.25, math.pi / 2])]
         if kind == "manager":
             case["mframe"] = "map" if mixed else "base_link"
+    if rng.random() < numeric:
+        if kind == "manager" and radii is not None and rng.random() < 0.4:
+            case["radii"] = [radii[0]] * len(radii)  # one radius for all labels: may be configured as a scalar
+        case["num"] = gen_num(rng, case, rng.choice([0.2, 0.6, 1.0]))
     return case
 
 
@@ -798,6 +1032,17 @@ def corpus() -> list:
         # FP-labelled ground truth is compatible with every estimate
         mk(task_fp=True, ests=[at(4.5, label="bus")], gts=[at(4.0, label=FP)]),
     ]
+    # numeric type variants: the same radii / positions / sizes handed over as int, numpy scalars, arrays. One pair
+    # inside its radius (must stay matchable), one at / beyond it (must not be paired), for every radius type
+    for tag in FLOAT_TAGS:
+        cs.append(mk(ests=[at(7.0), at(20.5, label="pedestrian")], gts=[at(4.0), at(20.0, label="pedestrian")],
+                     radii=[2.0, 9.0, 3.0, 9.0], num={"radii": [tag] * 4}))
+        cs.append(mk(ests=[at(6.0)], gts=[at(4.0)], radii=[2.0, 2.0, 2.0, 2.0], policy="ALLOW_ANY",
+                     num={"radii": [tag, "float", "float", "float"],
+                          "ests": [{"pos": {"c": "tuple", "t": ["int", "int", "int"]}, "size": {"c": "array", "t": "np.float32"}}],
+                          "gts": [{"pos": {"c": "array", "t": "np.int64"}, "size": {"c": "list", "t": ["int", "int", "np.float64"]}, "conf": "np.float32"}]}))
+    cs.append(mk(mode="iou2d", ests=[at(4.0), at(12.0)], gts=[at(4.0), at(13.0)], radii=[1.0, 0.0, 0.0, 0.0], num={"radii": ["int"] * 4}))
+    cs.append(mk(mode="iou3d", ests=[at(4.0), at(12.0)], gts=[at(4.0), at(13.0)], radii=[0.5, 0.0, 0.0, 0.0], num={"radii": ["np.float32", "np.int64", "int", "int"]}))
     roi = lambda x, y, **kw: dict({"label": "car", "frame": "cam_front", "roi": [x, y, 20, 20]}, **kw)
     cs += [
         {"kind": "direct", "dim": "2d", "mode": "iou2d", "policy": "ALLOW_UNKNOWN", "task_fp": False,
@@ -809,6 +1054,21 @@ def corpus() -> list:
         {"kind": "manager", "dim": "3d", "mode": "center", "policy": "ALLOW_UNKNOWN", "task_fp": True, "mframe": "base_link",
          "targets": ["car", "pedestrian"], "radii": None, "ego": [0.0, 0.0, 0.0],
          "ests": [at(5.0), at(30.0)], "gts": []},
+        # one integer radius for all labels, configured as a scalar / a one-element list (expanded by the library)
+        {"kind": "manager", "dim": "3d", "mode": "center", "policy": "DEFAULT", "task_fp": False, "mframe": "base_link",
+         "targets": ["car", "bicycle", "pedestrian", "motorbike"], "radii": [2.0, 2.0, 2.0, 2.0], "ego": [0.0, 0.0, 0.0],
+         "ests": [at(6.5), at(3.0), at(9.0)], "gts": [at(4.0), at(9.5, label="pedestrian")],
+         "num": {"radii": ["int"] * 4, "radii_form": "scalar", "cfg": "int"}},
+        {"kind": "manager", "dim": "3d", "mode": "center", "policy": "DEFAULT", "task_fp": False, "mframe": "base_link",
+         "targets": ["car", "bicycle", "pedestrian", "motorbike"], "radii": [2.0, 2.0, 2.0, 2.0], "ego": [0.0, 0.0, 0.0],
+         "ests": [at(6.5), at(3.0), at(9.0)], "gts": [at(4.0), at(9.5, label="pedestrian")],
+         "num": {"radii": ["np.int64"] * 4, "radii_form": "single"}},
+        {"kind": "direct", "dim": "2d", "mode": "center", "policy": "DEFAULT", "task_fp": False,
+         "targets": ["car", "bicycle", "pedestrian", "motorbike"], "radii": [10.0, 10.0, 10.0, 10.0],
+         "ests": [roi(0, 0), roi(100, 100)], "gts": [roi(10, 0), roi(100, 104)],
+         "num": {"radii": ["int", "int", "np.int32", "np.float32"],
+                 "ests": [{"roi": {"c": "tuple", "t": ["np.int64"] * 4}}, {"roi": {"c": "list", "t": ["np.int32", "int", "int", "np.int64"]}}],
+                 "gts": [{"roi": {"c": "list", "t": ["int"] * 4}, "t": "np.int64"}, {}]}},
     ]
     return cs
 
@@ -833,13 +1093,26 @@ def generate(rng, tier: str, contested: float = 0.45, manager: float = 0.1) -> l
 
 
 def shrink(case: dict):
+    nv = _num(case)
     for which in ("ests", "gts"):
         for k in range(len(case[which])):
             c = dict(case)
             c[which] = case[which][:k] + case[which][k + 1:]
+            if nv.get(which):
+                c["num"] = dict(nv, **{which: nv[which][:k] + nv[which][k + 1:]})
             yield c
+    if nv:
+        yield {k: v for k, v in case.items() if k != "num"}  # all numbers as plain floats
+        for key in ("ests", "gts", "ego", "cfg", "radii"):
+            if nv.get(key) and not (key == "radii" and nv.get("radii_form", "list") != "list"):
+                c = dict(case)
+                c["num"] = {k: v for k, v in nv.items() if k != key}
+                yield c
     if case["radii"] is not None:
-        yield dict(case, radii=None)
+        c = dict(case, radii=None)
+        if nv:
+            c["num"] = {k: v for k, v in nv.items() if k not in ("radii", "radii_form")}
+        yield c
     if case["kind"] == "manager":
         yield dict(case, kind="direct")
     if case["policy"] != "DEFAULT":
@@ -857,7 +1130,12 @@ def search(rng, st, disagreements) -> list:
                 n["mode"], n["policy"], n["task_fp"] = c["mode"], c["policy"], c["task_fp"]
                 if n["radii"] is not None and c["radii"] is not None and n["targets"] is not None:
                     n["radii"] = (list(c["radii"]) * 8)[: len(n["targets"])]
+                    nv = dict(_num(n))
+                    nv.pop("radii", None)
+                    if _num(c).get("radii"):
+                        nv["radii"] = (list(_num(c)["radii"]) * 8)[: len(n["radii"])]
+                    n["num"] = nv
             extra.append(n)
     for _ in range(600):
-        extra.append(gen_case(rng, 5, 0.8, manager=0.05))
+        extra.append(gen_case(rng, 5, 0.8, manager=0.05, numeric=0.5))
     return extra
